@@ -888,3 +888,260 @@ Proof.
       intros s [<-|[]]; cbn; (split; [bn_no|]); intros n v [[= <- <-]|[]]; bn_no.
   - intros tk a [<-|[<-|[]]] [<-|[<-|[]]]; cbn; eexists; (split; [left; reflexivity|]); cbn; discriminate.
 Qed.
+
+(* ===== L. refinement: the id-level tables of Model/Build.v ===================== *)
+Lemma BN_index_of_notin x u : ~ In x u -> index_of x u = length u.
+Proof.
+  induction u as [|y r IH]; intros H; cbn; [reflexivity|].
+  destruct (name_eqb x y) eqn:E.
+  - apply CP_name_eqb_eq in E. subst. exfalso. apply H. left. reflexivity.
+  - rewrite IH; [reflexivity|]. intros H'. apply H. right. exact H'.
+Qed.
+
+Lemma BN_index_of_nth x u : In x u -> nth_error u (index_of x u) = Some x.
+Proof.
+  induction u as [|y r IH]; intros H; [destruct H|]. cbn [index_of].
+  destruct (name_eqb x y) eqn:E.
+  - apply CP_name_eqb_eq in E. subst. reflexivity.
+  - apply CP_name_eqb_neq in E. destruct H as [H|H]; [congruence|]. cbn. apply IH. exact H.
+Qed.
+
+Lemma BN_index_of_le x u : index_of x u <= length u.
+Proof. induction u as [|y r IH]; cbn; [lia|]. destruct (name_eqb x y); lia. Qed.
+
+Lemma BN_index_of_lt_in x u : index_of x u < length u -> In x u.
+Proof.
+  induction u as [|y r IH]; cbn; [lia|]. destruct (name_eqb x y) eqn:E.
+  - apply CP_name_eqb_eq in E. auto.
+  - intros H. right. apply IH. lia.
+Qed.
+
+Lemma BN_index_of_inj x y u : In x u -> index_of x u = index_of y u -> x = y.
+Proof.
+  intros H E. pose proof (BN_index_of_nth x u H) as N.
+  assert (Hy : In y u).
+  { apply BN_index_of_lt_in. rewrite <- E. apply nth_error_Some. congruence. }
+  pose proof (BN_index_of_nth y u Hy) as N'. rewrite <- E in N'. congruence.
+Qed.
+
+Lemma BN_index_of_pos u : forall y x, NoDup u -> nth_error u y = Some x -> index_of x u = y.
+Proof.
+  induction u as [|z r IH]; intros y x N H; [destruct y; discriminate|].
+  inversion N as [|? ? Nz Nr]; subst. destruct y as [|y]; cbn in H |- *.
+  - injection H as ->. rewrite CP_name_eqb_refl. reflexivity.
+  - destruct (name_eqb x z) eqn:E.
+    + apply CP_name_eqb_eq in E. subst. exfalso. apply Nz. eapply nth_error_In. exact H.
+    + f_equal. apply IH; assumption.
+Qed.
+
+Definition inj_at (f : name -> nat) (k : name) : Prop := forall b, f k = f b -> k = b.
+
+Lemma BN_ndget_in k (d : cdict) : In k (map fst d) -> In (ndget k d) (map snd d).
+Proof.
+  intros H. apply BN_find_key_in in H. destruct H as [p H]. unfold ndget. fold (@keyis name k). rewrite H.
+  apply BN_find_some_key in H. apply in_map. tauto.
+Qed.
+
+Section Num.
+Variables (kn vn : name -> nat).
+Definition curN (d : cdict) : list (nat * nat) := map (fun q => (kn (fst q), vn (snd q))) d.
+Definition perN (d : pdict) : list (nat * list nat) := map (fun q => (kn (fst q), map vn (snd q))) d.
+
+Lemma BN_find_num {V W} (g : V -> W) k (d : list (name * V)) : inj_at kn k ->
+  find (fun p => Nat.eqb (fst p) (kn k)) (map (fun q => (kn (fst q), g (snd q))) d)
+  = option_map (fun q => (kn (fst q), g (snd q))) (find (keyis k) d).
+Proof.
+  intros I. induction d as [|q d IH]; cbn [map find]; [reflexivity|]. cbn [fst]. unfold keyis at 1.
+  destruct (name_eqb (fst q) k) eqn:E.
+  - apply CP_name_eqb_eq in E. assert (E2 : Nat.eqb (kn (fst q)) (kn k) = true) by (apply Nat.eqb_eq; congruence).
+    rewrite E2. reflexivity.
+  - apply CP_name_eqb_neq in E. destruct (Nat.eqb (kn (fst q)) (kn k)) eqn:E'; [|exact IH].
+    apply Nat.eqb_eq in E'. exfalso. apply E. symmetry. apply I. congruence.
+Qed.
+
+Lemma BN_num_dget k L : inj_at kn k -> In k (map fst L) -> dget (kn k) (curN L) = vn (ndget k L).
+Proof.
+  intros I H. unfold dget, curN. rewrite (BN_find_num vn k L I). unfold ndget. fold (@keyis name k).
+  apply BN_find_key_in in H. destruct H as [p ->]. reflexivity.
+Qed.
+
+Lemma BN_num_lget k P : inj_at kn k -> lget (kn k) (perN P) = map vn (nlget k P).
+Proof.
+  intros I. unfold lget, perN. rewrite (BN_find_num (map vn) k P I). unfold nlget. fold (@keyis (list name) k).
+  destruct (find (keyis k) P); reflexivity.
+Qed.
+
+Lemma BN_num_key k L : inj_at kn k -> (In (kn k) (map fst (curN L)) <-> In k (map fst L)).
+Proof.
+  intros I. unfold curN. rewrite map_map. cbn [fst]. rewrite in_map_iff. split.
+  - intros [q [E H]]. symmetry in E. apply I in E. subst k. apply in_map. exact H.
+  - intros H. apply in_map_iff in H. destruct H as [q [<- H]]. exists q. auto.
+Qed.
+
+Lemma BN_num_test k L P : inj_at kn k -> In k (map fst L) -> inj_at vn (ndget k L) ->
+  (~ In (dget (kn k) (curN L)) (lget (kn k) (perN P)) <-> ~ In (ndget k L) (nlget k P)).
+Proof.
+  intros I H Iv. rewrite (BN_num_dget k L I H), (BN_num_lget k P I), in_map_iff. split.
+  - intros N H'. apply N. exists (ndget k L). auto.
+  - intros N [b [E H']]. apply N. symmetry in E. apply Iv in E. subst b. exact H'.
+Qed.
+
+Lemma BN_num_diff L P k : inj_at kn k -> (In k (map fst L) -> inj_at vn (ndget k L)) ->
+  (In (kn k) (diff (curN L) (perN P)) <-> In k (ndiff L P)).
+Proof.
+  intros I Iv. rewrite diff_spec, diff_test_spec, BN_ndiff_spec, (BN_num_key k L I). split.
+  - intros [H N]. split; [exact H|]. apply (BN_num_test k L P I H (Iv H)). exact N.
+  - intros [H N]. split; [exact H|]. apply (BN_num_test k L P I H (Iv H)). exact N.
+Qed.
+
+Lemma BN_num_diff_ex L P y : (forall k, In k (map fst L) -> inj_at kn k /\ inj_at vn (ndget k L)) ->
+  (In y (diff (curN L) (perN P)) <-> exists k, In k (ndiff L P) /\ y = kn k).
+Proof.
+  intros I. split.
+  - intros H. assert (K : In y (map fst (curN L))) by (apply diff_spec in H; tauto).
+    unfold curN in K. rewrite map_map in K. cbn [fst] in K. apply in_map_iff in K. destruct K as [q [<- K]].
+    assert (K' : In (fst q) (map fst L)) by (apply in_map; exact K).
+    exists (fst q). split; [|reflexivity]. destruct (I _ K') as [I1 I2].
+    apply (BN_num_diff L P (fst q) I1 (fun _ => I2)). exact H.
+  - intros [k [H ->]]. assert (K : In k (map fst L)) by (apply BN_ndiff_spec in H; tauto).
+    destruct (I _ K) as [I1 I2]. apply (BN_num_diff L P k I1 (fun _ => I2)). exact H.
+Qed.
+End Num.
+
+Lemma BN_owner_num (kn : name -> nat) (f : name -> nat) (l : cdict) k : inj_at kn k -> In k (map fst l) ->
+  owner (map (fun q => (kn (fst q), f (fst q))) l) (kn k) = [f k].
+Proof.
+  intros I H.
+  assert (E : owner (map (fun q : name * name => (kn (fst q), f (fst q))) l) (kn k)
+              = match find (keyis k) l with Some q => [f (fst q)] | None => [] end).
+  { clear H. unfold owner. induction l as [|q l IH]; cbn [map find]; [reflexivity|]. cbn [fst]. unfold keyis at 1.
+    destruct (name_eqb (fst q) k) eqn:E.
+    - apply CP_name_eqb_eq in E. assert (E2 : Nat.eqb (kn (fst q)) (kn k) = true) by (apply Nat.eqb_eq; congruence).
+      rewrite E2. reflexivity.
+    - apply CP_name_eqb_neq in E. destruct (Nat.eqb (kn (fst q)) (kn k)) eqn:E'; [|exact IH].
+      apply Nat.eqb_eq in E'. exfalso. apply E. symmetry. apply I. congruence. }
+  rewrite E. apply BN_find_key_in in H. destruct H as [p H]. rewrite H.
+  apply BN_find_some_key in H. destruct H as [-> _]. reflexivity.
+Qed.
+
+(* the name-level build and the id-level tables T of Model/Build.v select the same
+   nodes: tags without duplicates (a dictionary keyed by tag); algorithm-level names
+   are their own 'task.alg' prefix (names without dots) *)
+Theorem BN_refines_tables tags e p y :
+  NoDup tags -> y < length tags ->
+  (forall k, In k (map fst (fst (fst (current e)))) -> alg_of k = k) ->
+  (In y (nodes_changed tags e p) <-> In y (changed_of (tables_of tags e p))).
+Proof.
+  intros Nd Hy Hl0. destruct (nth_error tags y) as [x|] eqn:Ex; [|apply nth_error_None in Ex; lia].
+  assert (Hx : In x tags) by (eapply nth_error_In; exact Ex).
+  assert (Ix : inj_at (fun n => index_of n tags) x) by (intros b E; eapply BN_index_of_inj; eassumption).
+  assert (Ey : index_of x tags = y) by (apply BN_index_of_pos; assumption).
+  unfold nodes_changed. rewrite in_flat_map.
+  assert (L : forall tn, In y (locate_all tags tn) <-> tn = x).
+  { intros tn. rewrite BN_locate_all, Ex. split; congruence. }
+  rewrite BN_names_changed_unfold. unfold tables_of, current in *. destruct p as [[[ts p1] p2] p3].
+  cbn [fst p_alg p_sv p_val] in *.
+  set (l0 := first_wins (alg_items e)) in *. set (l1 := first_wins (sv_items e)) in *.
+  set (l2 := first_wins (val_items e)) in *.
+  set (vu := map snd l0 ++ map snd l1 ++ map snd l2 ++ flat_map snd p1 ++ flat_map snd p2 ++ flat_map snd p3).
+  set (u1 := keys_c l1 ++ keys_p p2). set (u2 := keys_c l2 ++ keys_p p3).
+  set (vn := fun s => index_of s vu). set (nid := fun x => index_of x tags) in *.
+  set (k1 := fun x => index_of x u1). set (k2 := fun x => index_of x u2).
+  assert (Iv0 : forall k, In k (map fst l0) -> inj_at vn (ndget k l0)).
+  { intros k H b E. eapply BN_index_of_inj; [|exact E]. unfold vu. apply in_or_app. left. apply BN_ndget_in. exact H. }
+  assert (I1 : forall k, In k (map fst l1) -> inj_at k1 k /\ inj_at vn (ndget k l1)).
+  { intros k H. split; intros b E; (eapply BN_index_of_inj; [|exact E]).
+    - unfold u1. apply in_or_app. left. exact H.
+    - unfold vu. apply in_or_app. right. apply in_or_app. left. apply BN_ndget_in. exact H. }
+  assert (I2 : forall k, In k (map fst l2) -> inj_at k2 k /\ inj_at vn (ndget k l2)).
+  { intros k H. split; intros b E; (eapply BN_index_of_inj; [|exact E]).
+    - unfold u2. apply in_or_app. left. exact H.
+    - unfold vu. do 2 (apply in_or_app; right). apply in_or_app. left. apply BN_ndget_in. exact H. }
+  assert (Nth : forall k, nid (alg_of k) = y <-> alg_of k = x).
+  { intros k. split.
+    - intros E. assert (Hin : In (alg_of k) tags) by (apply BN_index_of_lt_in; unfold nid in E; lia).
+      pose proof (BN_index_of_nth _ _ Hin) as N. unfold nid in E. rewrite E, Ex in N. congruence.
+    - intros ->. exact Ey. }
+  unfold changed_of. cbn [cur_alg per_alg cur_sv per_sv cur_v per_v own_sv own_v].
+  change (map (fun q : name * name => (nid (fst q), vn (snd q))) l0) with (curN nid vn l0).
+  change (map (fun q : name * list name => (nid (fst q), map vn (snd q))) p1) with (perN nid vn p1).
+  change (map (fun q : name * name => (k1 (fst q), vn (snd q))) l1) with (curN k1 vn l1).
+  change (map (fun q : name * list name => (k1 (fst q), map vn (snd q))) p2) with (perN k1 vn p2).
+  change (map (fun q : name * name => (k2 (fst q), vn (snd q))) l2) with (curN k2 vn l2).
+  change (map (fun q : name * list name => (k2 (fst q), map vn (snd q))) p3) with (perN k2 vn p3).
+  rewrite !in_app_iff, !in_flat_map. unfold changed_names.
+  assert (A0 : In y (diff (curN nid vn l0) (perN nid vn p1)) <-> In x (ndiff l0 p1)).
+  { rewrite <- Ey. apply (BN_num_diff nid vn l0 p1 x Ix). apply Iv0. }
+  assert (A1 : (exists kid, In kid (diff (curN k1 vn l1) (perN k1 vn p2)) /\
+                 In y (owner (map (fun q : name * name => (k1 (fst q), nid (alg_of (fst q)))) l1) kid))
+               <-> exists k, In k (ndiff l1 p2) /\ alg_of k = x).
+  { split.
+    - intros (kid & H & O). apply (BN_num_diff_ex k1 vn l1 p2 kid I1) in H. destruct H as (k & H & ->).
+      assert (K : In k (map fst l1)) by (apply BN_ndiff_spec in H; tauto).
+      rewrite (BN_owner_num k1 (fun n => nid (alg_of n)) l1 k (proj1 (I1 k K)) K) in O.
+      destruct O as [O|[]]. exists k. split; [exact H|]. apply Nth. exact O.
+    - intros (k & H & E). assert (K : In k (map fst l1)) by (apply BN_ndiff_spec in H; tauto).
+      exists (k1 k). split; [apply (BN_num_diff_ex k1 vn l1 p2 (k1 k) I1); eauto|].
+      rewrite (BN_owner_num k1 (fun n => nid (alg_of n)) l1 k (proj1 (I1 k K)) K). left. apply Nth. exact E. }
+  assert (A2 : (exists kid, In kid (diff (curN k2 vn l2) (perN k2 vn p3)) /\
+                 In y (owner (map (fun q : name * name => (k2 (fst q), nid (alg_of (fst q)))) l2) kid))
+               <-> exists k, In k (ndiff l2 p3) /\ alg_of k = x).
+  { split.
+    - intros (kid & H & O). apply (BN_num_diff_ex k2 vn l2 p3 kid I2) in H. destruct H as (k & H & ->).
+      assert (K : In k (map fst l2)) by (apply BN_ndiff_spec in H; tauto).
+      rewrite (BN_owner_num k2 (fun n => nid (alg_of n)) l2 k (proj1 (I2 k K)) K) in O.
+      destruct O as [O|[]]. exists k. split; [exact H|]. apply Nth. exact O.
+    - intros (k & H & E). assert (K : In k (map fst l2)) by (apply BN_ndiff_spec in H; tauto).
+      exists (k2 k). split; [apply (BN_num_diff_ex k2 vn l2 p3 (k2 k) I2); eauto|].
+      rewrite (BN_owner_num k2 (fun n => nid (alg_of n)) l2 k (proj1 (I2 k K)) K). left. apply Nth. exact E. }
+  enough (G : (exists tn, In tn (map alg_of (ndiff l0 p1 ++ ndiff l1 p2 ++ ndiff l2 p3)) /\ In y (locate_all tags tn)) <->
+              In y (diff (curN nid vn l0) (perN nid vn p1)) \/
+              (exists kid, In kid (diff (curN k1 vn l1) (perN k1 vn p2)) /\
+                 In y (owner (map (fun q : name * name => (k1 (fst q), nid (alg_of (fst q)))) l1) kid)) \/
+              (exists kid, In kid (diff (curN k2 vn l2) (perN k2 vn p3)) /\
+                 In y (owner (map (fun q : name * name => (k2 (fst q), nid (alg_of (fst q)))) l2) kid)))
+    by exact G.
+  rewrite A0, A1, A2. split.
+  - intros (tn & H & Lc). apply L in Lc. subst tn. apply in_map_iff in H. destruct H as (item & E & H).
+    rewrite !in_app_iff in H. destruct H as [H|[H|H]].
+    + left. assert (K : In item (map fst l0)) by (apply BN_ndiff_spec in H; tauto).
+      rewrite (Hl0 _ K) in E. subst item. exact H.
+    + right. left. eauto.
+    + right. right. eauto.
+  - intros [H|[(k & H & E)|(k & H & E)]].
+    + exists x. split; [|apply L; reflexivity]. apply in_map_iff. exists x. split.
+      * apply Hl0. apply BN_ndiff_spec in H. tauto.
+      * rewrite !in_app_iff. auto.
+    + exists x. split; [|apply L; reflexivity]. apply in_map_iff. exists k. rewrite !in_app_iff. auto.
+    + exists x. split; [|apply L; reflexivity]. apply in_map_iff. exists k. rewrite !in_app_iff. auto.
+Qed.
+
+(* hence build() on names and build_versions on the tables agree on every node *)
+Corollary BN_refines_build c tags e ct p hint s :
+  persisted ct = Some p -> NoDup tags -> length tags = nnodes c ->
+  (forall k, In k (map fst (fst (fst (current e)))) -> alg_of k = k) ->
+  exists s', build_names c tags e ct hint s = Some s' /\
+    let s2 := build_versions c (tables_of tags e p) hint s in
+    (forall y t, In t (todo (getn (ns s') y)) <-> In t (todo (getn (ns s2) y))) /\
+    (forall z, In z (que s') <-> In z (que s2)).
+Proof.
+  intros Ep Nd Len Hl0. unfold build_names. rewrite Ep. eexists. split; [reflexivity|].
+  unfold build_versions.
+  destruct (build_exact c (reorder hint (nodes_changed tags e p)) s) as (_ & A & _ & C).
+  destruct (build_exact c (reorder hint (changed_of (tables_of tags e p))) s) as (_ & A' & _ & C').
+  split.
+  - intros y t. rewrite A, A', !reorder_In. split; intros (H1 & H2 & H3); (split; [|auto]);
+      apply (BN_refines_tables tags e p y Nd ltac:(lia) Hl0); exact H1.
+  - intros z. rewrite C, C', !reorder_In. split; intros (H1 & H2); (split; [|auto]);
+      apply (BN_refines_tables tags e p z Nd ltac:(lia) Hl0); exact H1.
+Qed.
+
+(* the side condition holds for engines whose names have no dots *)
+Lemma BN_alg_keys_own e : wf_engine e ->
+  forall k, In k (map fst (fst (fst (current e)))) -> alg_of k = k.
+Proof.
+  intros W k H. unfold current in H. cbn [fst] in H. apply (proj1 (BN_first_wins_keys _ _)) in H.
+  apply in_map_iff in H. destruct H as [[k' v] [E H]]. cbn in E. subst k'.
+  apply BN_alg_items_in in H. destruct H as (tk & a & H1 & H2 & -> & _).
+  destruct (proj2 W tk a H1 H2) as (D1 & D2 & _). apply BN_alg_of_2; assumption.
+Qed.
